@@ -423,7 +423,9 @@ func c08VerifyBeforeWrite(c *Ctx, r *Result) {
 		if c.PkgOf(fn) != "cli/tool" {
 			continue
 		}
-		writes := callSites(fn, func(name string, _ ssa.CallInstruction) bool { return name == "io/ioutil.WriteFile" || name == "os.WriteFile" })
+		writes := callSites(fn, func(name string, _ ssa.CallInstruction) bool {
+			return name == "io/ioutil.WriteFile" || name == "os.WriteFile"
+		})
 		if len(writes) == 0 {
 			continue
 		}
